@@ -64,6 +64,17 @@ CLAIMED = {
              'mechanism; Vars / globals lifetime by two-call cases.',
         design='4/C07',
         technique='TLA+ frame machine + static visibility law (TLC), replay with logging readers, TLC validation of recorded reader logs'),
+    'C05': dict(
+        text='GlomFrames runs one call as a machine in which the environment decides leaf by leaf whether it fails; GlomTrace '
+             'transcribes _unpack_stack / format_target_spec_trace over the frame table and states six laws of the rendering against '
+             'the dynamic parent chain (first line = root target, spine down to the failing spec, target it received, every attempted '
+             'branch of the frame itself in order, branch errors, abandoned branches); TLC checks them on every tree / failure plan '
+             'within the bound and rejects two mechanism mutants (no NO_PYFRAME walk, no forgiveness).  Each failing run is replayed: '
+             'str(error) is parsed line by line into depth / kind / what is shown and compared with the projection of the model '
+             'rendering, the last line must be the original error; exact ticks and marks are compared as DRIFT.  Random deeper trees '
+             'and plans recorded from glom are validated by TLC.',
+        design='4/C05',
+        technique='TLA+ frame machine + rendering laws (TLC), spec mutants, replay with parsed error messages, TLC validation of recorded traces'),
 }
 
 PENDING_REASON = 'check not built yet (planned: see DESIGN.md section 4); not claimed until both binding directions exist'
